@@ -453,6 +453,7 @@ type wunit struct {
 	NAU     int   `json:"n,omitempty"`       // audio: access units / packets in this write (default 1)
 	NoSlice bool  `json:"noslice,omitempty"` // h264 / h265: the access unit carries parameter sets only (the muxer takes note of them and drops the unit)
 	POC     int   `json:"poc,omitempty"`     // h264b: picture order count of the frame; DTS is then the *presentation* time passed to Write
+	Corrupt bool  `json:"corrupt,omitempty"` // video: the unit carries parameter sets of the right type that cannot be parsed (h264 h265 av1)
 	Seq     int   `json:"seq"`               // unique id, encoded in the payload
 	Size    int   `json:"size,omitempty"`    // extra payload bytes
 }
@@ -480,6 +481,17 @@ func (mi *muxInst) videoData(u wunit) [][]byte {
 	}
 	p := mi.vparam
 	var au [][]byte
+	if u.Corrupt {
+		// a parameter set NALU / OBU of the right type whose contents end too early; the picture itself is in order
+		switch kind {
+		case "h264":
+			return [][]byte{{0x67, 0x42}, mi.cfg.pset(kind, p).pps, append([]byte{0x65}, payloadTail(u, 0)...)}
+		case "h265":
+			return [][]byte{mi.cfg.pset(kind, p).vps, {0x42, 0x01, 0x01}, mi.cfg.pset(kind, p).pps, append([]byte{19 << 1, 0x01}, payloadTail(u, 0)...)}
+		case "av1":
+			return [][]byte{{0x0a, 0x01, 0xff}, append([]byte{6 << 3}, payloadTail(u, 0)...)}
+		}
+	}
 	if u.NoSlice {
 		ps := mi.cfg.pset(kind, p)
 		switch kind {
